@@ -466,9 +466,9 @@ def _mongo_step_faults(ctx, out, rng):
                 d.pop(c, None)
         j = rng.randrange(npol)
         exc = pick(rng, [RuntimeError, OSError, ValueError, KeyError])('injected client fault')
-        st.collection.fail_next = ('update_one', exc, j)
+        st.collection.fail_next = (('update_one', 'replace_one'), exc, j)       # whichever write the step re-saves a policy with
         req = pick(rng, [None, 4])
-        hist = ['up(1)', 'up(2)', 'up(3)', 'add %s' % ','.join(kinds), 'update_one #%d fails' % (j + 1), 'up(%s)' % ('' if req is None else req)]
+        hist = ['up(1)', 'up(2)', 'up(3)', 'add %s' % ','.join(kinds), 'write #%d of step 4 (update_one / replace_one) fails' % (j + 1), 'up(%s)' % ('' if req is None else req)]
 
         def complete():
             idx = set(st.collection.indexes)
